@@ -893,7 +893,7 @@ def install_vf2(I):
         I.define(facts)
         I.assumptions_used.add("A-vf2: GraphMatcher.subgraph_monomorphisms_iter yields monomorphisms only, each once "
                                "(completeness of VF2 is not used by the proofs)")
-        return IterSpec("seq", length=n, ekind=MAPK, elt=elt)
+        return IterSpec("seq", length=n, ekind=MAPK, elt=elt, as_list=SV(LIST(MAPK), (n, L[1])))
 
     base_call_method = I.call_method
 
